@@ -10,7 +10,7 @@ CONF = dict(
     trusted=['modelled by hand: HashForSignature, HashForWitnessV0, HashForWitnessV1; coq/Spec/ElementsSighash.v is the independent statement of the three layouts; '
              'tools/genvectors.py regenerates the published vectors of transaction/data/tx_valid.json into coq/Gen/SighashVectors.v on every run'],
     assumptions=['the specification file is my reading of the Elements layouts; it is anchored to ground truth by the 20 published vectors evaluated through it inside the Coq kernel'],
-    explanation='theorems: on the domain (legacy ALL/NONE and first-input SINGLE; v0 without RANGEPROOF; taproot key/script path with or without annex) the coded pre-image equals the '
+    explanation='theorems: on the domain (legacy ALL/NONE and first-input SINGLE, each with or without ANYONECANPAY; v0 without RANGEPROOF; taproot key/script path with or without annex) the coded pre-image equals the '
                 'specification layout for all transactions, indexes, hash types and spent data; the specification reproduces the published vectors (vm_compute); the transaction read back from its own serialization has the same three pre-images as the object that was serialized (C03_reparsed_has_same_preimages, from the codec theorem of C01 and the fact that no pre-image reads the witness flag). '
                 'K: the digest returned by the implementation vs the digest of the extracted SPECIFICATION on generated cases of the domain; the implementation side computes every digest on the object built field by field and again on the transaction read back from its own serialization (NewTxFromBuffer, on the domain where C01 proves that reading gives the fields back), a difference between the two is the answer reported for the case.',
     nontrivial_rule='distinct (transaction, algorithm, index, hash type) cases of the domain',
